@@ -1,4 +1,4 @@
-import GoatProofs.Lemmas.C19Epoch
+import GoatProofs.Lemmas.C19Ops
 /-
 C19 — keys, IVs and salts drawn for encryption are fresh and correctly sized.
 
@@ -15,31 +15,31 @@ namespace Model.Rand
 
 /-! ## histories -/
 
-theorem final_ext (o : Oracle) (v : Variant) : ∀ (ops : List Op) (s : St), Ext o s (final o v s ops)
+theorem final_ext (o : Oracle) : ∀ (ops : List Op) (s : St), Ext o s (final o s ops)
   | [], s => Ext.refl o s
-  | op :: ops, s => Ext.trans ((step_ext v op).run o s) (final_ext o v ops _)
+  | op :: ops, s => Ext.trans ((step_ext op).run o s) (final_ext o ops _)
 
-theorem final_inv (o : Oracle) (v : Variant) : ∀ (ops : List Op) (s : St), Inv s → Inv (final o v s ops)
+theorem final_inv (o : Oracle) : ∀ (ops : List Op) (s : St), Inv s → Inv (final o s ops)
   | [], _, h => h
-  | op :: ops, _, h => final_inv o v ops _ (Inv.step op h)
+  | op :: ops, _, h => final_inv o ops _ (Inv.step op h)
 
 /-- every recorded step of a history starts in a state reached by a prefix of the history, is one
     `stepRun`, and is followed by the rest of the history -/
-theorem trace_mem (o : Oracle) (v : Variant) : ∀ (ops : List Op) (s : St) (r : Rec), r ∈ trace o v s ops →
-    ∃ pre post : List Op, ops = pre ++ r.op :: post ∧ r.pre = final o v s pre ∧
-      r.out = (stepRun o v r.pre r.op).1 ∧ r.post = (stepRun o v r.pre r.op).2
+theorem trace_mem (o : Oracle) : ∀ (ops : List Op) (s : St) (r : Rec), r ∈ trace o s ops →
+    ∃ pre post : List Op, ops = pre ++ r.op :: post ∧ r.pre = final o s pre ∧
+      r.out = (stepRun o r.pre r.op).1 ∧ r.post = (stepRun o r.pre r.op).2
   | [], _, r, h => by simp [trace] at h
   | op :: ops, s, r, h => by
     simp only [trace, List.mem_cons] at h
     rcases h with rfl | h
     · exact ⟨[], ops, rfl, rfl, rfl, rfl⟩
-    · obtain ⟨pre, post, h1, h2, h3, h4⟩ := trace_mem o v ops _ r h
+    · obtain ⟨pre, post, h1, h2, h3, h4⟩ := trace_mem o ops _ r h
       exact ⟨op :: pre, post, by rw [h1]; rfl, by rw [h2]; rfl, h3, h4⟩
 
-theorem final_append (o : Oracle) (v : Variant) : ∀ (a b : List Op) (s : St),
-    final o v s (a ++ b) = final o v (final o v s a) b
+theorem final_append (o : Oracle) : ∀ (a b : List Op) (s : St),
+    final o s (a ++ b) = final o (final o s a) b
   | [], _, _ => rfl
-  | x :: a, b, s => by simp only [List.cons_append, final]; exact final_append o v a b _
+  | x :: a, b, s => by simp only [List.cons_append, final]; exact final_append o a b _
 
 /-! ## fresh_draw -/
 
@@ -48,14 +48,14 @@ theorem final_append (o : Oracle) (v : Variant) : ∀ (a b : List Op) (s : St),
     `[pos, pos + length)`, the segments are strictly ordered — hence pairwise disjoint: no byte of
     the stream is issued twice, nothing issued is a constant or an earlier slice — and the final
     position is the total number of bytes drawn. -/
-theorem fresh_draw (o : Oracle) (v : Variant) (ops : List Op) :
-    let s := final o v St.init ops
+theorem fresh_draw (o : Oracle) (ops : List Op) :
+    let s := final o St.init ops
     Chain o 0 s.log s.pos ∧
     s.log.Pairwise (fun a b => a.pos + a.bytes.length ≤ b.pos) ∧
     (∀ d ∈ s.log, o ⟨"rand", [.int d.pos, .int d.bytes.length]⟩ = .bytes d.bytes) ∧
     s.pos = totalLen s.log := by
   intro s
-  obtain ⟨ds, hl, hc⟩ := final_ext o v ops St.init
+  obtain ⟨ds, hl, hc⟩ := final_ext o ops St.init
   have hl' : s.log = ds := by
     have : St.init.log ++ ds = ds := rfl
     rw [← this]; exact hl
@@ -66,17 +66,17 @@ theorem fresh_draw (o : Oracle) (v : Variant) (ops : List Op) :
     log, form a chain from the position before to the position after the step (so the position is
     monotone and advances by exactly the number of bytes drawn), and lie strictly beyond every
     draw made earlier in the history. -/
-theorem step_draws (o : Oracle) (v : Variant) (ops : List Op) (r : Rec) (hr : r ∈ trace o v St.init ops) :
+theorem step_draws (o : Oracle) (ops : List Op) (r : Rec) (hr : r ∈ trace o St.init ops) :
     r.post.log = r.pre.log ++ r.newDraws ∧
     Chain o r.pre.pos r.newDraws r.post.pos ∧
     r.post.pos = r.pre.pos + totalLen r.newDraws ∧
     (∀ d ∈ r.newDraws, ∀ d' ∈ r.pre.log, d'.pos + d'.bytes.length ≤ d.pos) := by
-  obtain ⟨pre, post, _, hpre, _, hpost⟩ := trace_mem o v ops _ r hr
-  have hstep : Ext o r.pre r.post := by rw [hpost]; exact (step_ext v r.op).run o r.pre
+  obtain ⟨pre, post, _, hpre, _, hpost⟩ := trace_mem o ops _ r hr
+  have hstep : Ext o r.pre r.post := by rw [hpost]; exact (step_ext r.op).run o r.pre
   obtain ⟨h1, h2⟩ := hstep.newDraws
   refine ⟨h1, h2, h2.total, ?_⟩
   intro d hd d' hd'
-  obtain ⟨ds, hl, hc⟩ := final_ext o v pre St.init
+  obtain ⟨ds, hl, hc⟩ := final_ext o pre St.init
   rw [← hpre] at hl hc
   have hl' : r.pre.log = ds := by
     have : St.init.log ++ ds = ds := rfl
@@ -91,12 +91,12 @@ theorem step_draws (o : Oracle) (v : Variant) (ops : List Op) (r : Rec) (hr : r 
     since its creation or its last successful `GenerateCEK` (`epochIVs`/`epochStep`).  At the end
     of every history — hence, histories being arbitrary, at every point of every history — the IVs
     issued in the current epoch of every instance are pairwise distinct. -/
-theorem gcm_iv_distinct (o : Oracle) (v : Variant) (ops : List Op) (i : Nat) :
-    (epochIVs i (trace o v St.init ops) []).Nodup := by
-  have h := epochIVs_coupled o v i ops St.init [] Inv.init (by simp [Coupled, St.init])
+theorem gcm_iv_distinct (o : Oracle) (ops : List Op) (i : Nat) :
+    (epochIVs i (trace o St.init ops) []).Nodup := by
+  have h := epochIVs_coupled o i ops St.init [] Inv.init (by simp [Coupled, St.init])
   obtain ⟨hinv, hc⟩ := h
   unfold Coupled at hc
-  cases hg : (final o v St.init ops).insts[i]? with
+  cases hg : (final o St.init ops).insts[i]? with
   | none => rw [hg] at hc; simp only at hc; rw [hc]; exact List.nodup_nil
   | some g =>
     rw [hg] at hc; simp only at hc
@@ -105,11 +105,11 @@ theorem gcm_iv_distinct (o : Oracle) (v : Variant) (ops : List Op) (i : Nat) :
     exact ivRange_nodup this.1 _ this.2.1
 
 /-- the IVs of the current epoch are exactly `mask ⊕ be64 1, …, mask ⊕ be64 counter` -/
-theorem gcm_epoch_ivs (o : Oracle) (v : Variant) (ops : List Op) (i : Nat) (g : Gcm)
-    (hg : (final o v St.init ops).insts[i]? = some g) :
-    epochIVs i (trace o v St.init ops) [] = ivRange g.mask g.counter ∧
+theorem gcm_epoch_ivs (o : Oracle) (ops : List Op) (i : Nat) (g : Gcm)
+    (hg : (final o St.init ops).insts[i]? = some g) :
+    epochIVs i (trace o St.init ops) [] = ivRange g.mask g.counter ∧
     g.mask.length = 12 ∧ g.counter < 2 ^ 64 := by
-  have h := epochIVs_coupled o v i ops St.init [] Inv.init (by simp [Coupled, St.init])
+  have h := epochIVs_coupled o i ops St.init [] Inv.init (by simp [Coupled, St.init])
   obtain ⟨hinv, hc⟩ := h
   unfold Coupled at hc
   rw [hg] at hc
@@ -118,23 +118,161 @@ theorem gcm_epoch_ivs (o : Oracle) (v : Variant) (ops : List Op) (i : Nat) (g : 
 
 /-- **overflow ⇒ error, not reuse.**  When the counter of an instance is `2^64 − 1`, `GenerateIV`
     fails, draws nothing and leaves the state as it is (in any state, reachable or not). -/
-theorem gcm_overflow_is_error (o : Oracle) (v : Variant) (s : St) (i : Nat) (g : Gcm)
+theorem gcm_overflow_is_error (o : Oracle) (s : St) (i : Nat) (g : Gcm)
     (hg : s.insts[i]? = some g) (hc : g.counter = 2 ^ 64 - 1) :
-    stepRun o v s (.gcmIV i) = (.err "gcm-counter-overflow", s) := by
+    stepRun o s (.gcmIV i) = (.err "gcm-counter-overflow", s) := by
   rw [stepRun_gcmIV, hg]
   simp [hc]
 
 /-- …and the state before the last IV of an epoch is reachable in the model by state, so the
     statement is not vacuous: with counter `2^64 − 2` one more IV is issued, then only errors. -/
-example (o : Oracle) (v : Variant) :
+example (o : Oracle) :
     let g : Gcm := ⟨.a128gcm, 16, List.replicate 12 0, 2 ^ 64 - 2⟩
     let s : St := { St.init with insts := [g] }
-    (stepRun o v s (.gcmIV 0)).1 = .ok [.iv (xorCtr g.mask (2 ^ 64 - 1))] ∧
-    (stepRun o v (stepRun o v s (.gcmIV 0)).2 (.gcmIV 0)).1 = .err "gcm-counter-overflow" := by
+    (stepRun o s (.gcmIV 0)).1 = .ok [.iv (xorCtr g.mask (2 ^ 64 - 1))] ∧
+    (stepRun o (stepRun o s (.gcmIV 0)).2 (.gcmIV 0)).1 = .err "gcm-counter-overflow" := by
   intro g s
   constructor
   · rw [stepRun_gcmIV]; simp [s, g, St.init]
   · rw [stepRun_gcmIV, stepRun_gcmIV]; simp [s, g, St.init]
+
+/-! ## sizes, and every issued value is a new draw -/
+
+theorem trace_inv (o : Oracle) (ops : List Op) (r : Rec) (hr : r ∈ trace o St.init ops) : Inv r.pre := by
+  obtain ⟨pre, _, _, hpre, _, _⟩ := trace_mem o ops _ r hr
+  rw [hpre]; exact final_inv o pre _ Inv.init
+
+/-- **fresh_draw** (per issued value) and **sizes**, in one statement (`ItemOK`, Lemmas/C19Items):
+    in every step of every history, every value handed out satisfies
+    * a generated CEK is the content of a `cek` draw made in THIS step and has `CEKSize(enc)` bytes;
+    * a content-encryption IV has `IVSize(enc)` bytes and is either a 16-byte `cbcIV` draw of this
+      step, or `mask ⊕ be64 c` with a 12-byte mask, `1 ≤ c < 2^64`, where for `c = 1` the mask is a
+      `gcmMask` draw of this step;
+    * an AES-GCM key-wrap `iv` that was not supplied is a 12-byte `kwIV` draw of this step, a
+      supplied one is the caller's header value (12 bytes);
+    * a PBES2 `p2s` that was not supplied is a 32-byte `salt` draw of this step, a supplied one is
+      the caller's value;
+    * `p2c` is the caller's count, or 10000 exactly when the caller gave none (0);
+    * an agreed key has `CEKSize(enc)` bytes. -/
+theorem issued_ok (o : Oracle) (ops : List Op) (r : Rec) (hr : r ∈ trace o St.init ops)
+    (items : List Item) (hout : r.out = .ok items) :
+    ∀ it ∈ items, ItemOK r.newDraws (r.op.enc? r.pre) r.op.hdr? it := by
+  obtain ⟨_, _, _, _, ho, hp⟩ := trace_mem o ops _ r hr
+  have hrun : stepRun o r.pre r.op = (.ok items, r.post) := by
+    rw [← hout, ho, hp]
+  obtain ⟨ds, hl, ok⟩ := step_items (trace_inv o ops r hr) hrun
+  have : r.newDraws = ds := by simp [Rec.newDraws, hl]
+  rw [this]; exact ok
+
+/-- **sizes** (the length clauses of `issued_ok`, spelled out). -/
+theorem sizes (o : Oracle) (ops : List Op) (r : Rec) (hr : r ∈ trace o St.init ops)
+    (items : List Item) (hout : r.out = .ok items) :
+    (∀ b, Item.cek b ∈ items → ∀ e, r.op.enc? r.pre = some e → b.length = e.cekSize) ∧
+    (∀ b, Item.iv b ∈ items → (b.length = 12 ∨ b.length = 16) ∧
+        ∀ e, r.op.enc? r.pre = some e → b.length = e.ivSize) ∧
+    (∀ b, Item.kwIV b false ∈ items → b.length = 12) ∧
+    (∀ b, Item.salt b false ∈ items → b.length = 32) ∧
+    (∀ n d, Item.p2c n d ∈ items → ∀ h, r.op.hdr? = some h →
+        n = (if h.p2c = 0 then 10000 else h.p2c) ∧ d = decide (h.p2c = 0)) ∧
+    (∀ n, Item.cekAgreed n ∈ items → ∀ e, r.op.enc? r.pre = some e → n = e.cekSize) := by
+  have h := issued_ok o ops r hr items hout
+  refine ⟨fun b hb => (h _ hb).2, fun b hb => ⟨?_, (h _ hb).1⟩, fun b hb => (h _ hb).1,
+    fun b hb => (h _ hb).1, fun n d hb => h _ hb, fun n hb => h _ hb⟩
+  rcases (h _ hb).2 with h2 | h2
+  · exact Or.inr h2.1
+  · exact Or.inl h2.1
+
+/-- **gcm_iv_len.**  Every IV an agcm instance issues has 12 bytes (`= IVSize(enc)`). -/
+theorem gcm_iv_len (o : Oracle) (ops : List Op) (r : Rec) (hr : r ∈ trace o St.init ops) (i : Nat)
+    (hop : r.op = .gcmIV i) (items : List Item) (hout : r.out = .ok items) :
+    ∀ b, Item.iv b ∈ items → b.length = 12 := by
+  intro b hb
+  have h := issued_ok o ops r hr items hout _ hb
+  rcases h.2 with h2 | h2
+  · -- a CBC IV cannot be issued by an agcm instance: no cbcIV draw is made by this step
+    obtain ⟨_, _, _, _, ho, hp⟩ := trace_mem o ops _ r hr
+    have hI := trace_inv o ops r hr
+    rw [hop] at ho
+    rw [stepRun_gcmIV] at ho
+    cases hg : r.pre.insts[i]? with
+    | none => rw [hg] at ho; rw [ho] at hout; simp at hout
+    | some g =>
+      have hs := (sizes o ops r hr items hout).2.1 b hb
+      have : r.op.enc? r.pre = some g.enc := by rw [hop]; simp [Op.enc?, hg]
+      rw [hs.2 _ this]
+      exact gcm_ivSize (hI i g hg).2.2.1
+  · exact h2.1
+
+/-! ## jwe_fresh_per_message -/
+
+/-- **jwe_fresh_per_message.**  Every message created by `NewMessage` / `NewMessageWithKW` in any
+    history has (`MsgFresh`, Lemmas/C19Ops)
+    * an IV that is a 16-byte draw of this very step (CBC) or `mask ⊕ be64 1` — the FIRST IV of an
+      instance nobody else holds — whose 12-byte mask is a draw of this very step (GCM);
+    * a CEK that is a draw of this very step of exactly `CEKSize(enc)` bytes, unless the algorithm
+      defines it as the shared key (`dir`, then it must have `CEKSize(enc)` bytes) or the agreed key
+      (ECDH-ES direct);
+    and by `step_draws` the draws of this step lie beyond every earlier draw of the history. -/
+theorem jwe_fresh_per_message (o : Oracle) (ops : List Op) (r : Rec) (hr : r ∈ trace o St.init ops)
+    (items : List Item) (hout : r.out = .ok items) :
+    (∀ e, r.op = .newMessage e → MsgFresh e r.newDraws items) ∧
+    (∀ e kw h, r.op = .newMessageKW e kw h → MsgFresh e r.newDraws items) := by
+  obtain ⟨_, _, _, _, ho, hp⟩ := trace_mem o ops _ r hr
+  have hrun : stepRun o r.pre r.op = (.ok items, r.post) := by rw [← hout, ho, hp]
+  constructor
+  · intro e he
+    rw [he] at hrun
+    obtain ⟨ds, hl, _, fr⟩ := newMessage_ok hrun
+    have : r.newDraws = ds := by simp [Rec.newDraws, hl]
+    rw [this]; exact fr
+  · intro e kw h he
+    rw [he] at hrun
+    obtain ⟨ds, hl, _, fr⟩ := newMessageKW_ok hrun
+    have : r.newDraws = ds := by simp [Rec.newDraws, hl]
+    rw [this]; exact fr
+
+/-! ## non-vacuity: a concrete stream and a concrete history -/
+
+/-- a concrete stream: the byte at position `p` is `p mod 256` -/
+def oCount : Oracle := fun q =>
+  match q.args with
+  | [.int p, .int n] => .bytes ((List.range n.toNat).map (fun k => UInt8.ofNat (p.toNat + k)))
+  | _ => .none
+
+/-- a stream whose reads fail -/
+def oFail : Oracle := fun _ => .none
+
+def demo : List Op :=
+  [.newGcm .a128gcm, .gcmCEK 0, .gcmIV 0, .gcmIV 0, .gcmIV 0, .newMessage .a128cbc,
+   .newMessageKW .a256gcm .pbes2 ⟨none, none, 0⟩, .newMessageKW .a128gcm .gcmkw ⟨none, none, 0⟩,
+   .encrypt 0 .gcmkw ⟨none, none, 0⟩, .gcmCEK 0, .gcmIV 0,
+   .newMessageKW .a128gcm (.dir (List.replicate 16 9)) ⟨none, none, 0⟩, .deriveKey .ecdhKW .a192cbc]
+
+/-- every step of `demo` succeeds (so the hypotheses `r ∈ trace …`, `r.out = .ok items` of the
+    theorems above are satisfiable with non-empty `items`), and the positions after the steps are -/
+example : (trace oCount St.init demo).map (fun r => (r.out.isOk, r.post.pos)) =
+    [(true, 0), (true, 16), (true, 28), (true, 28), (true, 28), (true, 76), (true, 152), (true, 192),
+     (true, 204), (true, 220), (true, 232), (true, 244), (true, 292)] := by decide
+
+/-- the 14 draws of `demo`: kinds, positions, lengths -/
+example : (final oCount St.init demo).log.map (fun d => (d.kind, d.pos, d.bytes.length)) =
+    [(.cek, 0, 16), (.gcmMask, 16, 12), (.cek, 28, 32), (.cbcIV, 60, 16), (.cek, 76, 32), (.gcmMask, 108, 12),
+     (.salt, 120, 32), (.cek, 152, 16), (.gcmMask, 168, 12), (.kwIV, 180, 12), (.kwIV, 192, 12), (.cek, 204, 16),
+     (.gcmMask, 220, 12), (.gcmMask, 232, 12), (.cek, 244, 48)] := by decide
+
+/-- three IVs in the first epoch of instance 0, one in its second epoch -/
+example : (epochIVs 0 (trace oCount St.init (demo.take 5)) []).length = 3 ∧
+    (epochIVs 0 (trace oCount St.init demo) []).length = 1 := by decide
+
+/-- the default PBES2 count is applied when none is given, and only then -/
+example : (stepRun oCount St.init (.wrapKey .pbes2 32 ⟨none, none, 0⟩)).1 =
+      .ok [.salt ((List.range 32).map (fun k => UInt8.ofNat k)) false, .p2c 10000 true] ∧
+    (stepRun oCount St.init (.wrapKey .pbes2 32 ⟨none, some [1, 2], 4096⟩)).1 =
+      .ok [.salt [1, 2] true, .p2c 4096 false] := ⟨rfl, rfl⟩
+
+/-- a failing `rand.Read` is an error, draws nothing and changes nothing -/
+example : stepRun oFail { St.init with insts := [Gcm.new .a128gcm 16] } (.gcmIV 0) =
+    (.err "rand", { St.init with insts := [Gcm.new .a128gcm 16] }) := rfl
 
 /-! ## the concurrent clause: why one instance must not be shared without synchronisation -/
 
